@@ -296,6 +296,10 @@ func (it *indexedMessageIterator) loadChunk(chunkIndex *ChunkIndex) error {
 		if err != nil {
 			return fmt.Errorf("failed to decode chunk data: %w", err)
 		}
+		// the walk below is bounded by the declared size: the decoded data must be that long
+		if uint64(len(chunkSlot.buf)) != bufSize {
+			return fmt.Errorf("zstd chunk decoded to %d bytes but declares %d", len(chunkSlot.buf), bufSize)
+		}
 	case CompressionLZ4:
 		if it.lz4Reader == nil {
 			it.lz4Reader = lz4.NewReader(bytes.NewReader(parsedChunk.Records))
